@@ -65,6 +65,15 @@ def narrow_parameter_stream(ctx):
         thr = rng.choice([1.0, 0.5, 2.0, 3.0])
         kind = rng.choice(['min_delta', 'min_delta', 'min_peak', 'min_sum'])
         narrow = rng.choice([np.float32, np.float32, np.float16])(thr)
+        if rng.random() < 0.4:
+            # a decimal threshold: np.float32(0.3) holds 0.300000011920929, and that is the number it means (not 0.3):
+            # rises a hair below, at and above that number
+            narrow = np.float32(rng.choice([0.3, 0.1, 0.7, 1.1]))
+            thr = float(narrow)
+            kind = rng.choice(['min_delta', 'min_delta', 'min_peak'])
+            dt = 'float64'
+            vals = [rng.choice([0.0, 1.0, 2.0]) + rng.choice([0.0, 0.0, thr - 2.0 ** -30, thr, thr + 2.0 ** -30]) for _ in range(n)]
+            arr = np.array(vals, dtype=dt)
 
         def run(t):
             if kind == 'min_delta':
